@@ -760,7 +760,7 @@ func (s *sqliState) notWhitelist() bool {
 			// we check that next character after the number is either whitespace,
 			// or '/' or a '-' ==> SQLi
 			ch := s.input[s.tokenVec[0].len]
-			if ch <= 32 {
+			if ch <= 32 || isByteWhite(ch) {
 				// next char was whitespace,e.g. "1234 --"
 				// this isn't exactly correct. ideally we should skip over all whitespace
 				// but this seems to be ok for now
